@@ -926,6 +926,85 @@ def run_seed_presentations(rec, sc, variant, dseed):
                 break
 
 
+# ------------------------------------------------------------------ VoronoiFPS with the timing calibration active
+class ScriptedClock:
+    """stands in for `time` inside skmatter.sample_selection._voronoi_fps: the calibration of full_fraction then takes a
+    path (number of bisection steps, sizes of the trial draws) that depends on `seed` only, not on the wall clock"""
+    def __init__(self, seed):
+        self.rs, self.t = np.random.RandomState(seed), 0.0
+
+    def __call__(self):
+        self.t += float(10.0 ** self.rs.uniform(-4.0, 1.0))     # intervals over five decades: both outcomes of each comparison occur
+        return self.t
+
+
+def run_voronoi_calibration(rec, dseed, only=None):
+    """full_fraction=None (calibration active), initialize='random', integer seed: the SELECTION must not depend on how the
+    calibration went -- two fits whose (scripted) calibrations differ, a fit with the calibrated value given explicitly and
+    a refit of the same object all select the same samples.  full_fraction itself is timing dependent by the pinned
+    behaviour (known finding F9) and is not compared."""
+    import importlib
+    mod = importlib.import_module("skmatter.sample_selection._voronoi_fps")
+    Cls = mod.VoronoiFPS
+    unit = "sample_selection.VoronoiFPS"
+    if not hasattr(mod, "time"):
+        rec.stats["voronoi_clock_not_patchable"] = 1
+        return
+    _, X, Y = base_data(dseed, n=16)
+    real_time = mod.time
+    compared = ("selected_idx_", "X_selected_", "n_selected_", "support_")
+
+    def fitted(clock_seed, **ctor):
+        mod.time = ScriptedClock(clock_seed)
+        try:
+            est = Cls(n_to_select=4, initialize="random", **ctor)
+            perturb_global_rng()
+            with warnings.catch_warnings():
+                warnings.simplefilter("ignore")
+                est.fit(np.array(X))
+        finally:
+            mod.time = real_time
+        return est
+
+    def sel(est):
+        return {k: snap(getattr(est, k, None), 1) for k in compared}
+    for label, ctor in (("default random_state", {}), ("random_state=0", dict(random_state=0)), ("random_state=3", dict(random_state=3)),
+                        ("random_state=np.int64(5)", dict(random_state=np.int64(5)))):
+        if only is not None and label != only:
+            continue
+        case = dict(kind="voronoi_clock", scenario=unit, variant=0, dseed=dseed, layout="C", n_extra=N_EXTRA, group=label)
+        perturb_global_rng(reset=True)
+        try:
+            ref = fitted(11, **ctor)
+            others = [("calibration took another path", fitted(12, **ctor)),
+                      ("calibration took a third path", fitted(14, **ctor)),
+                      ("the calibrated full_fraction given explicitly", fitted(17, full_fraction=float(ref.full_fraction), **ctor)),
+                      ("full_fraction=0.5 given explicitly", fitted(15, full_fraction=0.5, **ctor))]
+            again = ref
+            mod.time = ScriptedClock(16)
+            try:
+                with warnings.catch_warnings():
+                    warnings.simplefilter("ignore")
+                    want = sel(ref)
+                    perturb_global_rng()
+                    again.fit(np.array(X))
+            finally:
+                mod.time = real_time
+            others.append(("the same object fitted again", again))
+        except Exception as e:     # noqa
+            rec.errors["%s calibration run %s" % (unit, type(e).__name__)] = rec.errors.get("%s calibration run %s" % (unit, type(e).__name__), 0) + 1
+            continue
+        for what, est in others:
+            rec.stats["voronoi_calibration_pairs"] = rec.stats.get("voronoi_calibration_pairs", 0) + 1
+            got = sel(est)
+            d = [k for k in compared if not close(got[k], want[k])]
+            if d:
+                rec.violation("C09 fails: %s(initialize='random', full_fraction=None, %s): the selection depends on the outcome of the timing "
+                              "calibration -- %s: %s differ from the first fit on the same data with the same seed" % (
+                                  unit, label, what, ", ".join(d)), case, key="%s.fit:selection depends on calibration" % unit, detail=d)
+                break
+
+
 # ------------------------------------------------------------------ fitted state must not alias the caller's fit arguments
 # aliasing present on the unchanged tree and accepted, with the reason (unit, attribute regex)
 ALIAS_ACCEPTED = [
@@ -1289,6 +1368,8 @@ def run_dynamic(ctx):
                         run_seed_presentations(rec, sc, variant, dseed)
                         if not quick:
                             run_histories(rec, sc, variant, dseed, "F")
+            for dseed in seeds:
+                run_voronoi_calibration(rec, dseed)
             for sc in fn_scenarios():
                 for variant in range(sc["variants"]):
                     for dseed in seeds:
@@ -1338,6 +1419,8 @@ def _replay_case(case):
         run_fit_transform_combos(rec, scs[case["scenario"]], case["variant"], case["dseed"], only=case.get("combo"))
     elif k == "alias":
         run_alias_case(rec, scs[case["scenario"]], case["variant"], case["dseed"])
+    elif k == "voronoi_clock":
+        run_voronoi_calibration(rec, case["dseed"], only=case.get("group"))
     elif k == "seeds":
         run_seed_presentations(rec, scs[case["scenario"]], case["variant"], case["dseed"])
         rec.violations = [x for x in rec.violations if x["case"].get("group") == case.get("group")]
